@@ -22,7 +22,7 @@ PID = "C17"
 LEVEL = "exploration"
 META = {
     "technique": "accept-set / reject-set by construction: PEP 3118 format strings generated from the declared C layout (equivalent spellings vs single-point mutations) served by an in-module exporter to typed-memoryview and legacy-buffer acquisition kernels; values checked against struct.unpack",
-    "level_text": "Exploration over a constructed finite family: 27 declared element types (all C integer types, float / double / long double, float and double complex, 9 struct types: aligned, packed, nested, packed-nested, with array members, with trailing padding, array of structs) x 3 acquisition forms (T[:], const T[:], object[T, ndim=1]) x every generated spelling (native / @ / ^ / = / < prefixes, explicit and counted padding, T{} wrapping, field names, repeat counts, whitespace, (d1,d2) arrays, Zf/Zd vs two reals, standard-size aliases) and every single-point mutation (one primitive changed in kind or size, field added / dropped, repeat count 0 / +1, pad byte added / dropped / shortened, array extent changed, packed format for an aligned struct and vice versa, big-endian prefixes, garbled strings, wrong itemsize, wrong ndim, read-only exporter, non-contiguous strides for ::1 / mode='c' / mode='fortran'). The accept spellings are cross-checked against numpy's independent PEP 3118 parser at generation time. Not a proof: the format grammar is sampled by construction, not enumerated.",
+    "level_text": "Exploration over a constructed finite family: 26 declared element types (all C integer types, float / double / long double, float and double complex, 8 struct types: aligned, packed, nested, packed-nested, with array members, with a complex member, with trailing padding) x acquisition forms T[:], object[T, ndim=1] and (for 7 types) const T[:] x every generated spelling (native / @ / ^ / = / < prefixes, explicit and counted padding, T{} wrapping, field names, repeat counts, whitespace, (d1,d2) arrays, Zf/Zd vs two reals, standard-size aliases) and every single-point mutation (one primitive changed in kind or size, field added / dropped, repeat count 0 / +1, pad byte added / dropped / shortened, array extent changed, packed format for an aligned struct and vice versa, big-endian prefixes, garbled strings, wrong itemsize, wrong ndim, read-only exporter, non-contiguous strides for ::1 / mode='c' / mode='fortran'). The accept spellings are cross-checked against numpy's independent PEP 3118 parser at generation time. Not a proof: the format grammar is sampled by construction, not enumerated.",
     "level_note": "Trusts the struct module (values) and the x86-64 SysV layout model of vlib/gen/bufdecl.py, which is verified against sizeof/offsets compiled into every test module before any verdict. The exporter lives in the module under test (compiled by the same compiler). Debatable spellings ('l' vs 'q', '>' on single bytes, arrays as repeat counts, ...) are executed but never judged.",
 }
 
@@ -137,6 +137,7 @@ def cases_1d(rng, i, t, kind, quick):
     for cl, f in bufdecl.either_spellings(t) + either_extra:
         out.append(case_of(rng, t, cl, "either", f))
     good = bufdecl.spell(t, "" if bufdecl.expressible_native(t) else "^")
+    out.append(case_of(rng, t, "numpy-exported-format", "accept", numpy_format(t)))
     # itemsize
     for label, isz in (("itemsize+1", t.size + 1), ("itemsize-1", t.size - 1), ("itemsize*2", t.size * 2), ("itemsize/2", t.size // 2)):
         if isz > 0 and isz != t.size:
@@ -181,24 +182,42 @@ def cases_nd(rng, i, t, nd, contig, kind, quick):
                     c["expect"] = "either"          # legacy buffers rely on the exporter honouring the request
                 out.append(c)
     # wrong ndim
+    sat = "F" if contig == "F" else "C"          # a layout that satisfies the kernel's contiguity request
     for wrong in ({1: [2, 2], 2: [4], 3: [2, 2]}[nd], {1: [1, 1, 2], 2: [2, 2, 2], 3: [2, 2, 2, 1]}[nd]):
-        out.append(case_of(rng, t, "ndim=%d-for-%d" % (len(wrong), nd), "reject", good, shape=wrong, layout="C"))
+        out.append(case_of(rng, t, "ndim=%d-for-%d" % (len(wrong), nd), "reject", good, shape=wrong, layout=sat))
     # a mutated / an equivalent format through the n-dim path
     acc = bufdecl.accept_spellings(t)
     rej = bufdecl.reject_spellings(t)
     for cl, f in (acc[:: max(1, len(acc) // 4)])[:4]:
-        out.append(case_of(rng, t, "nd+" + cl, "accept", f, shape=shapes[0], layout="C"))
+        out.append(case_of(rng, t, "nd+" + cl, "accept", f, shape=shapes[0], layout=sat))
     for cl, f in (rej[:: max(1, len(rej) // 4)])[:4]:
-        out.append(case_of(rng, t, "nd+" + cl, "reject", f, shape=shapes[0], layout="C"))
+        out.append(case_of(rng, t, "nd+" + cl, "reject", f, shape=shapes[0], layout=sat))
     return out
+
+
+def numpy_format(t):
+    """PEP 3118 format numpy itself exports for a structured dtype with exactly the declared C layout
+    (second, independent source of matching format strings)."""
+    import numpy as np
+
+    def dt(t):
+        if t.kind == "prim":
+            return np.dtype({"c": "i1", "b": "i1", "B": "u1", "h": "i2", "H": "u2", "i": "i4", "I": "u4", "l": "i8", "L": "u8",
+                             "q": "i8", "Q": "u8", "f": "f4", "d": "f8", "g": "longdouble", "Zf": "c8", "Zd": "c16"}[t.code])
+        if t.kind == "array":
+            return np.dtype((dt(t.elem), tuple(t.dims)))
+        return np.dtype({"names": [f for f, _ in t.fields], "formats": [dt(ft) for _, ft in t.fields],
+                         "offsets": list(t.offsets), "itemsize": t.size})
+    d = dt(t)
+    assert d.itemsize == t.size
+    return memoryview(np.zeros(1, d)).format
 
 
 def risky_cases(rng, i, t):
     """Inputs that can plausibly kill or hang the process: one runner case each."""
     out = []
-    if t.kind == "prim" and t.cname in ("unsigned char", "int", "double"):
-        exp = "accept" if t.cname == "unsigned char" else "reject"
-        out.append(case_of(rng, t, "null-format", exp, None, shape=[3], layout="C"))
+    for cl, f in bufdecl.risky_reject_spellings(t):
+        out.append(case_of(rng, t, cl, "reject", f, shape=[2], layout="C"))
     if t.kind == "struct" and t.name in ("S1", "S3"):
         good = bufdecl.spell(t, "", wrap=True, names=True)
         out.append(case_of(rng, t, "garbled:unterminated-name", "reject", good[:good.rindex(":")] if good.rstrip("}").endswith(":") else good + ":zz"))
@@ -233,13 +252,13 @@ def make_jobs(name, kernels, seed, quick):
                 for rep in range(4):
                     cases += cases_1d(rng, i, t, kind, quick)
             for c in risky_cases(rng, i, t):
-                jobs.append({"k": k, "dtype": i, "kind": kind, "cases": [c], "risky": True})
+                jobs.append({"k": k, "dtype": i, "kind": kind, "nd": nd, "cases": [c], "risky": True})
         else:
             cases = cases_nd(rng, i, t, nd, contig, kind, quick)
             if not quick:
                 for rep in range(4):
                     cases += cases_nd(rng, i, t, nd, contig, kind, quick)
-        jobs.append({"k": k, "dtype": i, "kind": kind, "cases": cases, "risky": False})
+        jobs.append({"k": k, "dtype": i, "kind": kind, "nd": nd, "cases": cases, "risky": False})
     return jobs
 
 
@@ -263,7 +282,10 @@ def run_jobs(so, name, jobs, case_timeout=120):
 
 
 def replay_dict(name, src, job, case):
-    return {"module": name, "src": src, "k": job["k"], "dtype": job["dtype"], "kind": job["kind"], "case": case}
+    """Self-contained replay: a one-kernel module (exporter + the declared type + the kernel) and the exporter case."""
+    small, _ = bufdecl.module_source(name, only=(job["dtype"], job["k"]))
+    return {"module": "c17r", "src": small, "k": job["k"], "dtype": job["dtype"], "kind": job["kind"], "nd": job.get("nd", 1),
+            "case": case}
 
 
 def _drive(arg):
@@ -334,7 +356,7 @@ def run(ctx):
     ctx.pmap(_drive, tasks)
     ctx.counters["kernels"] = nk
     ctx.extra["distinct_nontrivial_exact"] = int(ctx.counters.get("nt_exact", 0))
-    ctx.rule = ("(declared dtype, acquisition form, exporter) triples: 27 dtypes x {T[:], const T[:], object[T, ndim=1]} x every "
+    ctx.rule = ("(declared dtype, acquisition form, exporter) triples: 26 dtypes x {T[:], object[T, ndim=1], const T[:] (7 dtypes)} x every "
                 "constructed format spelling (accept set), single-point mutation (reject set) and debatable spelling (either set, "
                 "not judged), plus wrong itemsize / ndim, read-only exporters, item layouts (contiguous, gaps, negative stride, "
                 "n = 0..4) and, for double / short / S1, 8 contiguity / ndim declarations x {C, F, gap, row-gap, negative} "
@@ -348,21 +370,56 @@ def run(ctx):
                        "struct.unpack (native little-endian) is the value oracle; long double through numpy",
                        "a space inside an array extent list '(2, 3)d' is not generated: __pyx_buffmt_parse_array loops forever on it "
                        "(`continue` without advancing), which only a wall-clock timeout could show - see notes/C17.md",
-                       "formats with values beyond the stated grammar (suboffsets / indirect buffers, 'O', 'P', 'e') are not generated"]
+                       "formats beyond the stated grammar (suboffsets / indirect buffers, 'O', 'P', 'e') and exporters that return format == NULL although PyBUF_FORMAT was requested are not generated",
+                       "a struct with an array-of-structs member (S9) cannot be compiled as a buffer dtype (recorded finding, compile-only replay)"]
 
 
 # ------------------------------------------------------------------------------------------------ replay
 _cache = {}
 
 
+def _build_src(arg):
+    src, name, work = arg
+    tree.activate_view()
+    key = cybuild.sha12(src)
+    return key, cybuild.build(src, name, os.path.join(work, "c17replay", key), ext=".pyx")
+
+
+def _prebuild(ctx, case):
+    """Build the one-kernel module of this case - and, on first use, of all committed replays - in parallel."""
+    todo = {cybuild.sha12(case["src"]): (case["src"], case["module"])}
+    if not _cache:
+        for _, rep in harness.committed_replays(PID):
+            c = rep.get("case", {})
+            if c.get("kind") != "compile" and "src" in c:
+                todo.setdefault(cybuild.sha12(c["src"]), (c["src"], c["module"]))
+    for key, so in ctx.pmap(_build_src, [(src, name, ctx.work) for src, name in todo.values()]):
+        _cache[key] = so
+
+
 def replay(ctx, case):
     tree.activate_view()
+    if case.get("kind") == "compile":
+        outdir = os.path.join(ctx.work, "c17replay", "cc" + cybuild.sha12(case["src"]))
+        os.makedirs(outdir, exist_ok=True)
+        path = os.path.join(outdir, "c17c.pyx")
+        with open(path, "w") as f:
+            f.write(case["src"])
+        try:
+            cybuild.cython_compile(path)
+        except cybuild.CythonError as e:
+            return True, "compiler rejects the buffer dtype %s: %s" % (case["dtype"], (e.errors or ["?"])[0][-200:])
+        except Exception as e:      # noqa  (internal compiler exception)
+            import traceback
+            tb = traceback.extract_tb(e.__traceback__)[-1]
+            return True, "compiler dies with %s in %s:%s (%s) on a buffer of dtype %s" % (
+                type(e).__name__, os.path.basename(tb.filename), tb.name, tb.line, case["dtype"])
+        return False, "compiles"
     key = cybuild.sha12(case["src"])
     if key not in _cache:
-        name = case["module"]
-        _cache[key] = cybuild.build(case["src"], name, os.path.join(ctx.work, "c17replay", key), ext=".pyx")
+        _prebuild(ctx, case)
     so = _cache[key]
-    job = {"k": case["k"], "dtype": case["dtype"], "kind": case["kind"], "cases": [case["case"]]}
+    job = {"k": case["k"], "dtype": case["dtype"], "kind": case["kind"], "nd": case.get("nd", 1), "cases": [case["case"]]}
     res = run_jobs(so, case["module"], [job], case_timeout=30)[0]
     if isinstance(res, tuple):
         if res[0] == "crash":
